@@ -114,6 +114,7 @@ HereDocs ==
      [c |-> 1, op |-> "<<",  w |-> "E",      wm |-> <<"lit:E">>, body |-> "",      bm |-> <<>>,          dl |-> "E",  dm |-> "lit:E"],
      [c |-> 1, op |-> "<<",  w |-> "E",      wm |-> <<"lit:E">>, body |-> "\nx\n", bm |-> <<"lit:\nx\n">>, dl |-> "E", dm |-> "lit:E"],
      [c |-> 1, op |-> "<<",  w |-> "E",      wm |-> <<"lit:E">>, body |-> "\n",    bm |-> <<"lit:\n">>,  dl |-> "E", dm |-> "lit:E"],
+     [c |-> 1, op |-> "<<",  w |-> "\"\"",   wm |-> <<"dq[", "]dq">>, body |-> "$v\n", bm |-> <<"lit:$v\n">>, dl |-> "", dm |-> ""],     \* an empty delimiter: ended by an empty line
      [c |-> 1, op |-> "<<",  w |-> "EOF",    wm |-> <<"lit:EOF">>, body |-> "EO\nOF\n EOF\nEOFF\n", bm |-> <<"lit:EO\nOF\n EOF\nEOFF\n">>, dl |-> "EOF", dm |-> "lit:EOF"],
      [c |-> 1, op |-> "<<",  w |-> "E",      wm |-> <<"lit:E">>, body |-> "a $v b\n", bm |-> <<"lit:a ", "pe[", "name:v", "]pe", "lit: b\n">>, dl |-> "E", dm |-> "lit:E"],
      [c |-> 1, op |-> "<<",  w |-> "E",      wm |-> <<"lit:E">>, body |-> "$(a) `b`\n",
@@ -133,7 +134,7 @@ HereDocs ==
 HereAlt(h, n) ==  \* n: "" or an IO number
     A(h.c, <<M("r[")>> \o (IF n = "" THEN <<T(h.op)>> ELSE <<T(n), M("n:" \o n), TA(h.op)>>)
            \o <<M("rop:" \o h.op), THD(h.w, "sp", h.body, h.dl), M("w[")>> \o MS(h.wm) \o <<M("]w"), M("body[")>>
-           \o MS(h.bm) \o <<M("]body"), M("delim["), M(h.dm), M("]delim"), M("]r")>>)
+           \o MS(h.bm) \o <<M("]body"), M("delim[")>> \o (IF h.dm = "" THEN <<>> ELSE <<M(h.dm)>>) \o <<M("]delim"), M("]r")>>)
 
 RedirOps == <<">", "<", ">>", ">|", "<>", ">&", "<&">>
 
@@ -386,6 +387,9 @@ Alts(nt) ==
             A(1, <<M("w["), TA("\"$v\""), M("dq["), M("pe["), M("name:v"), M("]pe"), M("]dq"), M("]w")>>),
             A(1, <<M("w["), TA("${v:-${w}}"), M("pe["), M("braces"), M("name:v"), M("peop::-"), M("w["), M("pe["), M("braces"), M("name:w"), M("]pe"), M("]w"), M("]pe"), M("]w")>>),
             A(1, <<M("w["), TA("*/"), M("lit:*/"), M("]w")>>),
+            \* command substitutions inside the word
+            A(1, <<M("w["), TA("`a`"), M("cs`["), M("ln["), M("ao["), M("pl["), M("c["), M("simple["), M("w["), M("lit:a"), M("]w"), M("]simple"), M("]c"), M("]pl"), M("]ao"), M("]ln"), M("]cs"), M("]w")>>),
+            A(1, <<M("w["), TA("x$(a)"), M("lit:x"), M("cs$["), M("ln["), M("ao["), M("pl["), M("c["), M("simple["), M("w["), M("lit:a"), M("]w"), M("]simple"), M("]c"), M("]pl"), M("]ao"), M("]ln"), M("]cs"), M("]w")>>),
             \* literal text in front of an expansion / a quotation inside the word
             A(1, <<M("w["), TA("b$c"), M("lit:b"), M("pe["), M("name:c"), M("]pe"), M("]w")>>),
             A(1, <<M("w["), TA("/t/${U}\"q\"r"), M("lit:/t/"), M("pe["), M("braces"), M("name:U"), M("]pe"), M("dq["), M("lit:q"), M("]dq"), M("lit:r"), M("]w")>>) >>
